@@ -676,6 +676,12 @@ pub fn replay(v: &Value) -> i32 {
         }
         "ip-host" => check_ip_hosts(&rt, &mut r),
         "domain" => check_domain_constructors(&mut r),
+        "host" => {
+            // the fixed sets are re-run completely; random host resolutions with the recorded seed
+            check_raw_suffix_domains(&mut r);
+            let mut g = Rng::new(v["seed"].as_u64().unwrap_or(1));
+            check_host_resolution(&mut r, &mut g, 5000);
+        }
         k => harness_error(&format!("C12: cannot replay witness kind {k:?}")),
     }
     super::replay_verdict("C12", &r)
